@@ -246,7 +246,7 @@ func visitInstr(fr *frame, instr ssa.Instruction) continuation {
 
 	case *ssa.Go:
 		fn, args := prepareCall(fr, &instr.Call)
-		i.spawn(fr, instr.Pos(), fn, args)
+		i.spawn(fr, instr.Pos(), fn, args, false)
 
 	case *ssa.MakeChan:
 		fr.env[instr] = i.makeChan(int(i.concInt(fr.get(instr.Size), "chan size")))
